@@ -519,10 +519,12 @@ structure SUKFMem where
 def SUKFMem.init : SUKFMem := ⟨⟨0, 0⟩, ⟨0, 0⟩⟩
 
 /-- `SUKFCorrection::correctStep` on an object with members `mem` (members are overwritten only when the
-    corresponding stage succeeds); returns the members afterwards and the layout / component count of `corr_state` -/
+    corresponding stage succeeds, except that since fix 9d4c3da the innovations of the previous call are forgotten first);
+    returns the members afterwards and the layout / component count of `corr_state` -/
 def sukfStep (mem : SUKFMem) (I : Layout) (K : Nat) (C : Layout) (cK : Nat) (M : MMod) (sub : Nat) (reduced : Bool) : W (SUKFMem × Layout × Nat) := do
   let ws := utWeightSize M.Lin.noiseless.dcov
   let measSize := M.O.dim
+  let mem : SUKFMem := { mem with inn := ⟨0, 0⟩ }            -- innovations_.resize(0, 0) (fix 9d4c3da)
   req "SUKFCorrection: meas_size % measurement_sub_size_ (division by zero)" (.lt 0 sub)
   if !(M.mvalid && measSize % sub == 0) then pure (mem, I, K)
   else do
